@@ -102,7 +102,22 @@ def gen_cfg(rng, adjust):
         cb = over.get('cb', DEF[is128]['cb'])
         over['ids'] = rng.choice([[300], [200, 350], [120, 40, 777], [1], [cb - 1], [895], [1385, 1565]])
         over['ids'] = [min(x, cb - 1) for x in over['ids']]
+    if adjust and diverges(effective(is128, over)):
+        over['cf'] = 51
     return is128, over
+
+
+def diverges(c):
+    """skoolkit's bookkeeping after a whole contended period (Audio!ImplSpanBook) makes the remainder of a delay grow from frame to
+    frame when the contended period is long and slow enough: AudioWriter._add_contention then never returns.  The generators stay
+    out of that corner (plus a margin); HANG_PROBE below is the one deliberate visit."""
+    p = c['ce'] - c['cb']
+    k = p * 100 // (100 + c['cf'])
+    return 2 * k + c['fd'] - 2 * p < 1000
+
+
+HANG_PROBE = dict(k='b', is128=0, over=dict(fd=16000, cb=1000, ce=15000, cf=150), opt=dict(vol=100, cmio=1, ints=0, off=15380), delays=[13936],
+                  cls=['probe:diverging-span'])
 
 
 # ------------------------------------------------------------------------------------------------ beeper inputs
@@ -431,7 +446,7 @@ def run_macro_group(wd, tag, cases, rng):
     cwd = os.getcwd()
     try:
         os.chdir(d)
-        with contextlib.redirect_stdout(io.StringIO()), contextlib.redirect_stderr(err):
+        with contextlib.redirect_stdout(io.StringIO()), contextlib.redirect_stderr(err), limit(60):
             skool2html.main(['-q', '-w', 'd', '-d', os.path.join(d, 'out'), 'game.skool'])
     except BaseException as e:                        # SystemExit included
         exc = '%s: %s %s' % (type(e).__name__, e, err.getvalue().strip()[-300:])
@@ -503,7 +518,7 @@ def run_trace(wd, tag, args, code, org, wavname='out.wav', machine=None):
     cwd = os.getcwd()
     try:
         os.chdir(d)
-        with contextlib.redirect_stdout(out), contextlib.redirect_stderr(err):
+        with contextlib.redirect_stdout(out), contextlib.redirect_stderr(err), limit(60):
             trace.main(argv)
     except BaseException as e:
         exc = '%s: %s %s' % (type(e).__name__, e, err.getvalue().strip()[-300:])
@@ -555,25 +570,50 @@ def slim(case, wav, adj, route):
     return c
 
 
+class Hang(Exception):
+    pass
+
+
+def _alarm(*a):
+    raise Hang('no result after %d s' % LIMIT)
+
+
+LIMIT = 20
+
+
+@contextlib.contextmanager
+def limit(seconds=LIMIT):
+    import signal
+    old = signal.signal(signal.SIGALRM, _alarm)
+    signal.alarm(seconds)
+    try:
+        yield
+    finally:
+        signal.alarm(0)
+        signal.signal(signal.SIGALRM, old)
+
+
+def api_case(c, cases, errors):
+    try:
+        with limit():
+            wav, adj = run_api(c)
+        cases.append(slim(c, wav, adj, 'api'))
+    except Exception as e:
+        errors.append(dict(route='api', k=c['k'], exc='%s: %s' % (type(e).__name__, e), case=c))
+
+
 def work(job):
     """job = (seed, worker index, wd, n beeper api, n ay api, n macro groups, n trace runs) -> (cases, errors)"""
     sd, wi, wd, nb, na, nm, nt = job
     rng = random.Random(sd * 1000003 + wi * 7919 + 17)
     cases, errors = [], []
+    if wi == 0:
+        probe = dict(HANG_PROBE, cfg=effective(0, HANG_PROBE['over']))
+        api_case(probe, cases, errors)
     for i in range(nb):
-        c = gen_beeper(rng, i)
-        try:
-            wav, adj = run_api(c)
-            cases.append(slim(c, wav, adj, 'api'))
-        except Exception as e:
-            errors.append(dict(route='api', k='b', exc='%s: %s' % (type(e).__name__, e), case=c))
+        api_case(gen_beeper(rng, i), cases, errors)
     for i in range(na):
-        c = gen_ay(rng, i)
-        try:
-            wav, _ = run_api(c)
-            cases.append(slim(c, wav, None, 'api'))
-        except Exception as e:
-            errors.append(dict(route='api', k='a', exc='%s: %s' % (type(e).__name__, e), case=c))
+        api_case(gen_ay(rng, i), cases, errors)
     for gi in range(nm):
         if gi % 3 == 2:
             # #AUDIO sim=1, ay=1 in a 128K snapshot
